@@ -107,14 +107,16 @@ impl<K, V> FnvHashMap<K, V> {
     #[inline]
     pub fn shrink_to_fit(&mut self) {}
     pub fn clear(&mut self) {
-        for s in self.slots.iter_mut() {
-            *s = None;
-        }
+        self.slots[0] = None;
+        self.slots[1] = None;
+        self.slots[2] = None;
+        self.slots[3] = None;
     }
     #[inline]
     pub fn iter(&self) -> Iter<'_, K, V> {
         Iter {
-            inner: self.slots.iter(),
+            slots: &self.slots,
+            i: 0,
         }
     }
     #[inline]
@@ -156,57 +158,115 @@ impl<K, V> FnvHashMap<K, V> {
         }
     }
     pub fn retain<F: FnMut(&K, &mut V) -> bool>(&mut self, mut f: F) {
-        for s in self.slots.iter_mut() {
-            let keep = match s {
-                Some((k, v)) => f(k, v),
-                None => true,
+        macro_rules! one {
+            ($i:expr) => {
+                let keep = match &mut self.slots[$i] {
+                    Some((k, v)) => f(k, v),
+                    None => true,
+                };
+                if !keep {
+                    self.slots[$i] = None;
+                }
             };
-            if !keep {
-                *s = None;
-            }
+        }
+        one!(0);
+        one!(1);
+        one!(2);
+        one!(3);
+    }
+}
+
+impl<K, V> FnvHashMap<K, V> {
+    /// index of the first empty slot (constant-index scan)
+    #[inline]
+    fn first_free(&self) -> Option<usize> {
+        if self.slots[0].is_none() {
+            Some(0)
+        } else if self.slots[1].is_none() {
+            Some(1)
+        } else if self.slots[2].is_none() {
+            Some(2)
+        } else if self.slots[3].is_none() {
+            Some(3)
+        } else {
+            None
         }
     }
 }
 
 impl<K: Eq, V> FnvHashMap<K, V> {
+    /// index of the slot holding `k` (constant-index scan)
+    #[inline]
+    fn find<Q: ?Sized + Eq>(&self, k: &Q) -> Option<usize>
+    where
+        K: Borrow<Q>,
+    {
+        macro_rules! one {
+            ($i:expr) => {
+                if let Some((sk, _)) = &self.slots[$i] {
+                    if sk.borrow() == k {
+                        return Some($i);
+                    }
+                }
+            };
+        }
+        one!(0);
+        one!(1);
+        one!(2);
+        one!(3);
+        None
+    }
     pub fn get<Q: ?Sized + Eq>(&self, k: &Q) -> Option<&V>
     where
         K: Borrow<Q>,
     {
-        for s in self.slots.iter() {
-            if let Some((sk, sv)) = s {
-                if sk.borrow() == k {
-                    return Some(sv);
+        macro_rules! one {
+            ($i:expr) => {
+                if let Some((sk, sv)) = &self.slots[$i] {
+                    if sk.borrow() == k {
+                        return Some(sv);
+                    }
                 }
-            }
+            };
         }
+        one!(0);
+        one!(1);
+        one!(2);
+        one!(3);
         None
     }
     pub fn get_key_value<Q: ?Sized + Eq>(&self, k: &Q) -> Option<(&K, &V)>
     where
         K: Borrow<Q>,
     {
-        for s in self.slots.iter() {
-            if let Some((sk, sv)) = s {
-                if sk.borrow() == k {
-                    return Some((sk, sv));
+        macro_rules! one {
+            ($i:expr) => {
+                if let Some((sk, sv)) = &self.slots[$i] {
+                    if sk.borrow() == k {
+                        return Some((sk, sv));
+                    }
                 }
-            }
+            };
         }
+        one!(0);
+        one!(1);
+        one!(2);
+        one!(3);
         None
     }
     pub fn get_mut<Q: ?Sized + Eq>(&mut self, k: &Q) -> Option<&mut V>
     where
         K: Borrow<Q>,
     {
-        for s in self.slots.iter_mut() {
-            if let Some((sk, sv)) = s {
-                if (*sk).borrow() == k {
-                    return Some(sv);
-                }
-            }
+        // constant-index accesses only: a reference formed with a symbolic index costs CBMC a
+        // symbolic-offset byte extract over the whole slot array
+        match self.find(k) {
+            Some(0) => self.slots[0].as_mut().map(|kv| &mut kv.1),
+            Some(1) => self.slots[1].as_mut().map(|kv| &mut kv.1),
+            Some(2) => self.slots[2].as_mut().map(|kv| &mut kv.1),
+            Some(3) => self.slots[3].as_mut().map(|kv| &mut kv.1),
+            _ => None,
         }
-        None
     }
     #[inline]
     pub fn contains_key<Q: ?Sized + Eq>(&self, k: &Q) -> bool
@@ -216,20 +276,31 @@ impl<K: Eq, V> FnvHashMap<K, V> {
         self.get(k).is_some()
     }
     pub fn insert(&mut self, key: K, value: V) -> Option<V> {
-        for s in self.slots.iter_mut() {
-            if let Some((sk, sv)) = s {
-                if *sk == key {
-                    return Some(core::mem::replace(sv, value));
+        macro_rules! hit {
+            ($i:expr) => {
+                if let Some((sk, sv)) = &mut self.slots[$i] {
+                    if *sk == key {
+                        return Some(core::mem::replace(sv, value));
+                    }
                 }
-            }
+            };
         }
-        for s in self.slots.iter_mut() {
-            if s.is_none() {
-                *s = Some((key, value));
-                return None;
-            }
+        hit!(0);
+        hit!(1);
+        hit!(2);
+        hit!(3);
+        if self.slots[0].is_none() {
+            self.slots[0] = Some((key, value));
+        } else if self.slots[1].is_none() {
+            self.slots[1] = Some((key, value));
+        } else if self.slots[2].is_none() {
+            self.slots[2] = Some((key, value));
+        } else if self.slots[3].is_none() {
+            self.slots[3] = Some((key, value));
+        } else {
+            panic!("fnv shim: capacity exceeded");
         }
-        panic!("fnv shim: capacity exceeded");
+        None
     }
     pub fn remove<Q: ?Sized + Eq>(&mut self, k: &Q) -> Option<V>
     where
@@ -241,48 +312,56 @@ impl<K: Eq, V> FnvHashMap<K, V> {
     where
         K: Borrow<Q>,
     {
-        for s in self.slots.iter_mut() {
-            let hit = match s {
-                Some((sk, _)) => (*sk).borrow() == k,
-                None => false,
-            };
-            if hit {
-                return s.take();
-            }
+        match self.find(k) {
+            Some(0) => self.slots[0].take(),
+            Some(1) => self.slots[1].take(),
+            Some(2) => self.slots[2].take(),
+            Some(3) => self.slots[3].take(),
+            _ => None,
         }
-        None
     }
     pub fn entry(&mut self, key: K) -> Entry<'_, K, V> {
-        // locate first (shared scan), then hand out the slot reference
-        let mut hit = CAP;
-        let mut free = CAP;
-        for (i, s) in self.slots.iter().enumerate() {
-            match s {
-                Some((sk, _)) => {
-                    if hit == CAP && *sk == key {
-                        hit = i;
-                    }
-                }
-                None => {
-                    if free == CAP {
-                        free = i;
-                    }
-                }
+        match self.find(&key) {
+            Some(0) => {
+                return Entry::Occupied(OccupiedEntry {
+                    slot: &mut self.slots[0],
+                })
             }
+            Some(1) => {
+                return Entry::Occupied(OccupiedEntry {
+                    slot: &mut self.slots[1],
+                })
+            }
+            Some(2) => {
+                return Entry::Occupied(OccupiedEntry {
+                    slot: &mut self.slots[2],
+                })
+            }
+            Some(3) => {
+                return Entry::Occupied(OccupiedEntry {
+                    slot: &mut self.slots[3],
+                })
+            }
+            _ => {}
         }
-        if hit != CAP {
-            let _ = key;
-            Entry::Occupied(OccupiedEntry {
-                slot: &mut self.slots[hit],
-            })
-        } else {
-            if free == CAP {
-                panic!("fnv shim: capacity exceeded");
-            }
-            Entry::Vacant(VacantEntry {
+        match self.first_free() {
+            Some(0) => Entry::Vacant(VacantEntry {
                 key,
-                slot: &mut self.slots[free],
-            })
+                slot: &mut self.slots[0],
+            }),
+            Some(1) => Entry::Vacant(VacantEntry {
+                key,
+                slot: &mut self.slots[1],
+            }),
+            Some(2) => Entry::Vacant(VacantEntry {
+                key,
+                slot: &mut self.slots[2],
+            }),
+            Some(3) => Entry::Vacant(VacantEntry {
+                key,
+                slot: &mut self.slots[3],
+            }),
+            _ => panic!("fnv shim: capacity exceeded"),
         }
     }
 }
@@ -417,25 +496,35 @@ impl<'a, K, V> VacantEntry<'a, K, V> {
 // ---- iterators --------------------------------------------------------------------
 
 pub struct Iter<'a, K, V> {
-    inner: core::slice::Iter<'a, Option<(K, V)>>,
+    slots: &'a [Option<(K, V)>; CAP],
+    i: usize,
 }
 impl<'a, K, V> Clone for Iter<'a, K, V> {
     fn clone(&self) -> Self {
         Iter {
-            inner: self.inner.clone(),
+            slots: self.slots,
+            i: self.i,
         }
     }
 }
 impl<'a, K, V> Iterator for Iter<'a, K, V> {
     type Item = (&'a K, &'a V);
     fn next(&mut self) -> Option<Self::Item> {
-        loop {
-            match self.inner.next() {
-                None => return None,
-                Some(Some((k, v))) => return Some((k, v)),
-                Some(None) => {}
-            }
+        macro_rules! step {
+            ($i:expr) => {
+                if self.i == $i {
+                    self.i = $i + 1;
+                    if let Some((k, v)) = &self.slots[$i] {
+                        return Some((k, v));
+                    }
+                }
+            };
         }
+        step!(0);
+        step!(1);
+        step!(2);
+        step!(3);
+        None
     }
 }
 
